@@ -349,7 +349,7 @@ class Evaluator:
                     rhs = rhs.copy_value()
                 self.store(e["a"][0], rhs, env, this)
                 return rhs
-            if e.get("op") in ("==", "!=", "<", ">", "<=", ">=") and len(e.get("a", [])) == 2:
+            if e.get("op") in ("==", "!=", "<", ">", "<=", ">=") and len(e.get("a", [])) == 2 and not has_body:
                 a = self.eval(e["a"][0], env, this)
                 b = self.eval(e["a"][1], env, this)
                 return self.binop(e["op"], a, b)
@@ -357,6 +357,8 @@ class Evaluator:
                 callee = self.prog.funcs[e["fid"]]
                 obj = self.eval(e["obj"], env, this) if e.get("obj") is not None else None
                 args = [self.eval(a, env, this) for a in e.get("a", [])]
+                if obj is None and e.get("op") and e.get("ismethod") and not e.get("static") and args:
+                    obj, args = args[0], args[1:]      # member operator written infix
                 return self.call(callee, obj, args)
             raise Broken("comparator calls %s, for which the abstract domain has no summary (at %s)" % (f or e.get("fn"), e.get("l")))
         raise Broken("comparator uses an expression kind the evaluator does not model: %s" % k)
